@@ -443,11 +443,12 @@ PROPS["C14"] = {
     "legs": _c14(),
 }
 def _c15():
-    L = [leg("vtbb-nodes", "c15_nodes", (3, 4), {"depth": 6}, flags=(), what="all legal operation sequences of length 6 over {put, try_get, try_reserve, try_release, try_consume} on buffer/queue/priority_queue/sequencer "
-             "nodes; sequencer arrival permutations; join_node queueing/key_matching/reserving with every arrival interleaving; limiter put/decrement programs with a receiver that rejects by choice; "
-             "overwrite/write_once op sequences; split/indexer/broadcast routing", weight=3.0),
-         leg("vtbb-seq8", "c15_nodes", (1, 1), {"only": "seq", "depth": 8}, flags=(), what="all operation sequences of length 8 (ring wrap and growth of the item buffer)", tiers=("quick",)),
-         leg("vtbb-seq10", "c15_nodes", (1, 1), {"only": "seq", "depth": 10}, flags=(), what="all operation sequences of length 10", tiers=("thorough",), weight=3.0)]
+    L = [leg("vtbb-nodes", "c15_nodes", (3, 4), {"skip": "seq"}, flags=(), what="sequencer arrival permutations; join_node queueing/key_matching/reserving with every arrival interleaving; limiter programs over {queued put, direct put, decrement} "
+             "with a receiver that rejects by choice; overwrite/write_once op sequences; split/indexer/broadcast routing", weight=2.0),
+         leg("vtbb-seq6", "c15_nodes", (1, 2), {"only": "seq", "depth": 6}, flags=(), what="buffer/queue/priority_queue/sequencer nodes: all legal operation sequences of length 6 over {put, try_get, try_reserve, try_release, try_consume, "
+             "attach an accepting successor}, started from 0, 3, 4, 7 and 8 buffered items (capacity boundaries), forwarder tasks at explorer-chosen moments", weight=3.0),
+         leg("vtbb-seq7", "c15_nodes", (0, 1), {"only": "seq", "depth": 7, "prefills": "0.4"}, flags=(), what="all operation sequences of length 7 from 0 and 4 buffered items (ring wrap and growth of the item buffer)", tiers=("quick",), weight=2.0),
+         leg("vtbb-seq9", "c15_nodes", (1, 1), {"only": "seq", "depth": 9, "prefills": "0.4"}, flags=(), what="all operation sequences of length 9 from 0 and 4 buffered items", tiers=("thorough",), weight=4.0)]
     for k, b, what in [("limiter", (2, 3), "queue -> limiter(1) -> node -> decrementer, three messages"), ("limiter_ext", (1, 2), "same with a second putting thread"),
                        ("limiter_push", (2, 3), "a direct put is in flight inside a slow lightweight successor while the limiter's forward task serves a queued pull-mode predecessor"),
                        ("joinq", (1, 2), "queueing join_node, the two ports fed by two threads"), ("joink", (1, 2), "key_matching join_node, keys arrive in opposite orders"),
